@@ -407,56 +407,90 @@ theorem lenient_of_step (bucket : Bytes) (rs pats : List Bytes) (a : Bytes) (hs 
 
 /-! ### the loop over the actions -/
 
-theorem kindLoop_ok_of' (o b : Bool) (l : List Bytes) (h : ∀ a ∈ l, StepOKb o b a) :
-    kindLoop o b l = .ok () := by
+/-- since the loop `continue`s at `s3:*`, it succeeds exactly when every action passes -/
+theorem kindLoop_ok_iff' (o b : Bool) (l : List Bytes) :
+    kindLoop o b l = .ok () ↔ ∀ a ∈ l, StepOKb o b a := by
   induction l with
-  | nil => rfl
-  | cons a rest ih =>
-    rw [kindLoop]
-    have ha := h a (by simp)
-    have hr := ih (fun x hx => h x (by simp [hx]))
-    rcases ha with hk | ⟨hk, ho⟩ | ⟨hk, hb⟩
-    · rw [hk]
-    · rw [hk]; subst ho; exact hr
-    · rw [hk]; subst hb; exact hr
-
-theorem kindLoop_ok_inv' (o b : Bool) (l : List Bytes) (h : kindLoop o b l = .ok ())
-    (hna : ∀ a ∈ l, actionKind a ≠ .all) : ∀ a ∈ l, StepOKb o b a := by
-  induction l with
-  | nil => intro a ha; cases ha
+  | nil => simp [kindLoop]
   | cons x rest ih =>
-    rw [kindLoop] at h
-    have hx := hna x (by simp)
+    rw [kindLoop]
     cases hk : actionKind x with
-    | all => exact absurd hk hx
-    | panic => rw [hk] at h; cases h
+    | all =>
+      simp only
+      rw [ih]
+      constructor
+      · intro h a ha
+        rcases List.mem_cons.1 ha with rfl | ha
+        · exact Or.inl hk
+        · exact h a ha
+      · intro h a ha; exact h a (List.mem_cons_of_mem _ ha)
+    | panic =>
+      simp only
+      constructor
+      · intro h; cases h
+      · intro h
+        rcases h x (by simp) with e | ⟨e, _⟩ | ⟨e, _⟩ <;> rw [hk] at e <;> cases e
     | object =>
-      rw [hk] at h
+      simp only
       cases o with
-      | false => cases h
+      | false =>
+        simp only [Bool.not_false, if_true]
+        constructor
+        · intro h; cases h
+        · intro h
+          rcases h x (by simp) with e | ⟨_, e⟩ | ⟨e, _⟩
+          · rw [hk] at e; cases e
+          · cases e
+          · rw [hk] at e; cases e
       | true =>
-        intro a ha
-        rcases List.mem_cons.1 ha with rfl | ha
-        · exact Or.inr (Or.inl ⟨hk, rfl⟩)
-        · exact ih h (fun y hy => hna y (by simp [hy])) a ha
+        simp only [Bool.not_true, Bool.false_eq_true, if_false]
+        rw [ih]
+        constructor
+        · intro h a ha
+          rcases List.mem_cons.1 ha with rfl | ha
+          · exact Or.inr (Or.inl ⟨hk, rfl⟩)
+          · exact h a ha
+        · intro h a ha; exact h a (List.mem_cons_of_mem _ ha)
     | bucket =>
-      rw [hk] at h
+      simp only
       cases b with
-      | false => cases h
+      | false =>
+        simp only [Bool.not_false, if_true]
+        constructor
+        · intro h; cases h
+        · intro h
+          rcases h x (by simp) with e | ⟨e, _⟩ | ⟨_, e⟩
+          · rw [hk] at e; cases e
+          · rw [hk] at e; cases e
+          · cases e
       | true =>
-        intro a ha
-        rcases List.mem_cons.1 ha with rfl | ha
-        · exact Or.inr (Or.inr ⟨hk, rfl⟩)
-        · exact ih h (fun y hy => hna y (by simp [hy])) a ha
+        simp only [Bool.not_true, Bool.false_eq_true, if_false]
+        rw [ih]
+        constructor
+        · intro h a ha
+          rcases List.mem_cons.1 ha with rfl | ha
+          · exact Or.inr (Or.inr ⟨hk, rfl⟩)
+          · exact h a ha
+        · intro h a ha; exact h a (List.mem_cons_of_mem _ ha)
 
-theorem kindLoop_ok_of (pats : List Bytes) (l : List Bytes) (h : ∀ a ∈ l, StepOK pats a) :
-    kindLoop (containsObjectPattern pats) (containsBucketPattern pats) l = .ok () :=
-  kindLoop_ok_of' _ _ l h
+/-- without the empty action string the only possible error is the kind mismatch -/
+theorem kindLoop_cases (o b : Bool) (l : List Bytes) (h : ∀ a ∈ l, actionKind a ≠ .panic) :
+    kindLoop o b l = .ok () ∨ kindLoop o b l = .error .resourceMismatch := by
+  induction l with
+  | nil => left; rfl
+  | cons x rest ih =>
+    have hr := ih (fun a ha => h a (List.mem_cons_of_mem _ ha))
+    rw [kindLoop]
+    cases hk : actionKind x with
+    | all => exact hr
+    | panic => exact absurd hk (h x (by simp))
+    | object => cases o <;> simp [hr]
+    | bucket => cases b <;> simp [hr]
 
-theorem kindLoop_ok_inv (pats : List Bytes) (l : List Bytes)
-    (h : kindLoop (containsObjectPattern pats) (containsBucketPattern pats) l = .ok ())
-    (hna : ∀ a ∈ l, actionKind a ≠ .all) : ∀ a ∈ l, StepOK pats a :=
-  kindLoop_ok_inv' _ _ l h hna
+theorem kindLoop_ok_iff (pats : List Bytes) (l : List Bytes) :
+    kindLoop (containsObjectPattern pats) (containsBucketPattern pats) l = .ok () ↔
+      ∀ a ∈ l, StepOK pats a :=
+  kindLoop_ok_iff' _ _ l
 
 /-! ### the decode hooks -/
 
